@@ -28,7 +28,10 @@ BATCH_RATES = {
     "K2": (0.18, 0.04, 0.06, 0.16, 0.00),
     "K3": (0.18, 0.04, 0.06, 0.00, 0.16),
     "K4": (0.20, 0.05, 0.08, 0.08, 0.08),
+    "K5": (0.28, 0.05, 0.03, 0.00, 0.00),   # scripted: one op of the alphabet - produce; disturb; re-ask
+    "K6": (0.10, 0.00, 0.00, 0.00, 0.00),   # scripted: one table, one fault at a chosen point, then re-ask
 }
+SCRIPTED = ("K5", "K6")
 
 
 def splitmix64(*parts):
@@ -44,8 +47,32 @@ def splitmix64(*parts):
     return x
 
 
+# ops whose recipe needs a live object of a particular kind: what to call first (K5 templates)
+PREREQ = {
+    "tomo.BinaryResult.str": ["tomo.BinaryResult"], "tomo.BinaryResult.eq": ["tomo.BinaryResult"],
+    "tomo.CircuitResult.str": ["tomo.CircuitResult"],
+    "tomo.SMF.new": ["tomo.stabilizer_measurement_circuit"], "tomo.SMF.expectation_values": ["tomo.stabilizer_measurement_circuit"],
+    "tomo.SMF.density_matrix": ["tomo.stabilizer_measurement_circuit"], "tomo.smf_expectation_values": ["tomo.stabilizer_measurement_circuit"],
+    "tomo.FST.new": ["tomo.full_state_tomography_circuits"], "tomo.FST.expectation_values": ["tomo.full_state_tomography_circuits"],
+    "tomo.FST.density_matrix": ["tomo.full_state_tomography_circuits"], "tomo.fst_density_matrix": ["tomo.full_state_tomography_circuits"],
+    "lin.NTuple.query": ["lin.NTuple"], "lin.Repr.query": ["lin.Repr"], "lin.Repr.add": ["lin.NTuple", "lin.Repr"],
+    "lin.from": ["lin.to"],
+    "lc.id": ["lc.determine_lc_class"], "lc.get_graph": ["lc.determine_lc_class"], "lc.str": ["lc.determine_lc_class"],
+    "lc.eq": ["lc.determine_lc_class", "lc.new"], "lc.num_qubits": ["lc.new"],
+    "lookup.info_parse_circuit": ["lookup.stabilizer_circuit_lookup"], "lookup.mubinfo_copy": ["lookup.mub_circuit_lookup"],
+    "layer.to_circuit": ["layer.find_local_clifford_layer"], "layer.check_LC": ["layer.find_local_clifford_layer"],
+}
+
+
+def _touches(op, kind):
+    """does this op read the stabilizer / the MUB table of its (n, connectivity)?"""
+    if kind == "mub":
+        return op.startswith("mub.") or op in ("lookup.mub_circuit_lookup", "tomo.full_state_tomography_circuits")
+    return op.startswith("prep.") or op in ("lookup.stabilizer_circuit_lookup", "tomo.stabilizer_measurement_circuit")
+
+
 class Generator:
-    def __init__(self, seed, batch, tier="quick"):
+    def __init__(self, seed, batch, tier="quick", job=None):
         self.rng = random.Random(seed)
         self.batch = batch
         self.tier = tier
@@ -53,28 +80,41 @@ class Generator:
         self.queue = []
         self.emitted = 0
         self._force = None       # (n, conn) forced for the next recipe (fault aiming)
+        self._force_sticky = False
+        self.script_note = None
         self.cfg = self._draw_config()
+        if batch == "K5":
+            self._script_k5(job["op"])
+        elif batch == "K6":
+            self._script_k6(job["table"], job["fault"])
 
     # ------------------------------------------------------------------ configuration (swarm)
     def _draw_config(self):
         r = self.rng
         weights = {2: 3, 3: 4, 4: 4, 5: 2, 6: 2} if self.tier == "quick" else {2: 2, 3: 3, 4: 3, 5: 3, 6: 3}
+        wide = r.random() < 0.08     # many tables in one process: cache capacity / key collisions / load order
         ns = sorted(set(r.choices(list(weights), weights=list(weights.values()), k=r.choice([1, 1, 2]))))
+        if wide:
+            ns = sorted(r.sample([2, 3, 4, 5, 6], r.choice([3, 4, 5])))
         conns = {}
         for n in ns:
-            k = min(len(VALID[n]), r.choice([1, 1, 2, 3]))
+            k = len(VALID[n]) if wide else min(len(VALID[n]), r.choice([1, 1, 2, 3]))
             conns[n] = r.sample(VALID[n], k)
         fams = set(r.sample(CORE, r.choice([1, 2, 2, 3, 4])))
         fams |= set(r.sample(AUX, r.choice([0, 1, 1, 2, 3, 5])))
+        if wide:
+            fams = set(r.sample(["prep", "mub", "lookup"], r.choice([2, 3]))) | set(r.sample(AUX, r.choice([0, 1])))
         length = r.randint(3, 12) if r.random() < 0.5 else r.randint(13, 40)
+        if wide:
+            length = r.randint(30, 70)
         m, d, inv, rd, it = BATCH_RATES[self.batch]
         jitter = lambda x: x * r.choice([0.5, 1.0, 1.0, 1.5])  # noqa: E731
         groups = {n: [Lt.random_group(r, n) for _ in range(r.choice([1, 2, 2, 3]))] for n in ns}
-        return {"ns": ns, "conns": conns, "families": sorted(fams), "length": length,
+        return {"ns": ns, "conns": conns, "families": sorted(fams), "length": length, "wide": wide,
                 "p_mutate": jitter(m), "p_drop": jitter(d), "p_invalid": jitter(inv),
                 "p_read": jitter(rd), "p_intr": jitter(it),
                 "p_dependent": r.choice([0.5, 0.7, 0.7, 0.9]),
-                "p_reuse": r.choice([0.3, 0.5, 0.7]),
+                "p_reuse": r.choice([0.3, 0.5, 0.7, 0.95]),
                 "alias_bias": r.choice([0.5, 0.8, 0.95]),
                 "big_fitter": r.random() < (0.05 if self.tier == "quick" else 0.25),
                 "groups": groups}
@@ -717,25 +757,29 @@ class Generator:
         if how == "reissue":
             return [self._call(m["op"], m.get("args", []), m.get("kw", []))]
         if how == "sibling":
-            key = m["key"]           # e.g. "mub3-linear" / "stabilizer4-star"
-            kind, rest = ("mub", key[3:]) if key.startswith("mub") else ("stabilizer", key[10:])
-            n, conn = int(rest[0]), rest[2:]
-            pre = []
-            if kind == "mub":
-                op = r.choice(["mub.get_mubs", "mub.get_mub_circuits", "mub.get_mub_info", "lookup.mub_circuit_lookup",
-                               "tomo.full_state_tomography_circuits"])
-                if op.startswith("tomo"):
-                    return [self._call(op, [self.need_qc(ex, n, False), self.lit(conn)])]
-                return [self._call(op, [self.lit(n), self.lit(conn)])]
-            if n not in NCLASSES:
-                return []
-            op = r.choice(["prep.get_preparation_circuit", "prep.get_readout_circuit", "lookup.stabilizer_circuit_lookup",
-                           "prep.compress_preparation_circuit"])
-            if op.startswith("lookup"):
-                return [self._call(op, [self.lit(n), self.lit(conn), self.lit(r.randrange(NCLASSES[n]))])]
-            first = self.need_qc(ex, n, False) if "compress" in op else self.need_stab(ex, n, pre, False)
-            return pre + [self._call(op, [first, self.lit(conn)])]
+            return self.gen_sibling(ex, m["key"])
         return self.gen_consumer(ex, sid)
+
+    def gen_sibling(self, ex, key):
+        """Another cache-backed call on the same table (key e.g. "mub3-linear" / "stabilizer4-star")."""
+        r = self.rng
+        kind, rest = ("mub", key[3:]) if key.startswith("mub") else ("stabilizer", key[10:])
+        n, conn = int(rest[0]), rest[2:]
+        pre = []
+        if kind == "mub":
+            op = r.choice(["mub.get_mubs", "mub.get_mub_circuits", "mub.get_mub_info", "lookup.mub_circuit_lookup",
+                           "tomo.full_state_tomography_circuits"])
+            if op.startswith("tomo"):
+                return [self._call(op, [self.need_qc(ex, n, False), self.lit(conn)])]
+            return [self._call(op, [self.lit(n), self.lit(conn)])]
+        if n not in NCLASSES:
+            return []
+        op = r.choice(["prep.get_preparation_circuit", "prep.get_readout_circuit", "lookup.stabilizer_circuit_lookup",
+                       "prep.compress_preparation_circuit"])
+        if op.startswith("lookup"):
+            return [self._call(op, [self.lit(n), self.lit(conn), self.lit(r.randrange(NCLASSES[n]))])]
+        first = self.need_qc(ex, n, False) if "compress" in op else self.need_stab(ex, n, pre, False)
+        return pre + [self._call(op, [first, self.lit(conn)])]
 
     def gen_consumer(self, ex, sid):
         """Feed the (possibly mutated) object back into the library."""
@@ -746,7 +790,7 @@ class Generator:
         n = info.get("n") or info.get("nq") or self._n()
         if tag == "Stabilizer":
             op = r.choice(["prep.get_preparation_circuit", "prep.get_readout_circuit", "lc.determine_lc_class",
-                           "stab.validate", "stab.to_list"])
+                           "stab.validate", "stab.to_list", "stab.expand", "stab.repr"])
             if op.startswith("prep"):
                 return [self._call(op, [me, self.lit(self._conn(n, False))])]
             return [self._call(op, [me])]
@@ -758,7 +802,8 @@ class Generator:
                 return []
             return [self._call(op, [me, self.lit(self._conn(n, False))])]
         if tag == "Graph":
-            return [self._call(r.choice(["stab.new", "graph.compress", "graph.get_edges"]), [me])]
+            return [self._call(r.choice(["stab.new", "graph.compress", "graph.get_edges", "graph.edge_count", "graph.to_circuit",
+                                         "graph.copy", "graph.compress", "graph.get_edges"]), [me])]
         if tag == "list[qc]" and m.get("op") == "tomo.full_state_tomography_circuits":
             nbits, ncirc = info.get("nc", n), info.get("len", 5)
             if info.get("nm", 9) > 4 and not self.cfg["big_fitter"]:
@@ -775,17 +820,19 @@ class Generator:
             return [self._call("layer.to_circuit", [me])]
         return []
 
-    def gen_fault(self, ex, kind):
+    def gen_fault(self, ex, kind, fam=None, arm=None):
         """Arm a fault, issue a call that will meet it (a cold lookup), then re-ask."""
         r = self.rng
-        fam = r.choice([f for f in self.cfg["families"] if f in CORE] or ["mub"])
+        fam = fam or r.choice([f for f in self.cfg["families"] if f in CORE] or ["mub"])
         # aim at a table that is still cold (a fault while the cache is warm tests nothing)
         kind_prefix = "mub" if fam == "mub" else "stabilizer"
         cold = [(n, c) for n in self.cfg["ns"] for c in self.cfg["conns"][n]
                 if f"{kind_prefix}{n}-{c}.txt" not in ex.warm]
         if not cold and r.random() < 0.7:
             cold = [(n, c) for n in (2, 3, 4) for c in VALID[n] if f"{kind_prefix}{n}-{c}.txt" not in ex.warm]
-        if cold and r.random() < 0.85:
+        if self._force_sticky:
+            pass
+        elif cold and r.random() < 0.85:
             self._force = r.choice(cold)
         try:
             saved = self.cfg["p_invalid"]
@@ -793,11 +840,15 @@ class Generator:
             steps = self.gen_call(ex, fam)
         finally:
             self.cfg["p_invalid"] = saved
-            self._force = None
+            if not self._force_sticky:
+                self._force = None
         if not steps or steps[-1]["kind"] != "call":
             return steps
         call = steps[-1]
-        if kind == "read":
+        if arm is not None:
+            arm = dict(arm)
+            arm["id"] = self._id()
+        elif kind == "read":
             exc = r.choice(["FileNotFoundError", "PermissionError", "OSError", "UnicodeDecodeError", "MemoryError"])
             arm = {"id": self._id(), "kind": "arm_read", "match": "next", "exc": exc}
         else:
@@ -819,17 +870,20 @@ class Generator:
         steps = self.gen_call(ex)
         if not steps or steps[-1]["kind"] != "call":
             return steps
-        call = steps[-1]
+        return steps + [self._after_call(steps[-1])]
 
+    def _after_call(self, call):
         def after(ex2, call=call):
             sid = call["id"]
             m = ex2.meta.get(sid)
-            if m is None or not m["subs"]:
-                return []
             r = self.rng
-            cands = [(path, kind, hint) for path, kind, al, hint in m["subs"] if kind != "tuple"]
+            cands = [(path, kind, hint) for path, kind, al, hint in (m["subs"] if m else []) if kind != "tuple"]
             if not cands:
-                return []
+                # nothing to disturb in the result (e.g. an in-place op returning None): question the receiver,
+                # repeat the op, question the receiver again
+                again = dict(call)
+                again["id"] = self._id()
+                return receiver_queries(ex2) + [again] + receiver_queries(ex2)
             out = []
             for _ in range(r.choice([1, 1, 2])):
                 path, kind, hint = r.choice(cands)
@@ -840,11 +894,107 @@ class Generator:
             again = dict(call)
             again["id"] = self._id()
             out.append(again)
+            return out + receiver_queries(ex2)
+
+        def receiver_queries(ex2):
+            # an op with a live receiver / object argument: ask the object something else afterwards
+            out = []
+            for A in call.get("args", [])[:2]:
+                if "ref" in A and not A.get("path") and A["ref"] in ex2.meta:
+                    out += self.gen_consumer(ex2, A["ref"])
             return out
-        return steps + [after]
+        return after
+
+    # ------------------------------------------------------------------ scripted batches
+    def _script_k5(self, opname):
+        """One op of the alphabet: warm-up in its family, the op itself, then (twice) disturb its result
+        and ask again with the same arguments - for EVERY op, every run of the check."""
+        fam = opname.split(".")[0]
+        self.cfg["families"] = sorted(set(self.cfg["families"]) | {fam})
+        self.cfg["p_invalid"] *= 0.3
+        self.cfg["length"] = 0
+        if fam in ("graph", "stab", "lc", "lin", "rot"):
+            self.cfg["p_reuse"] = 0.9      # work on few objects: memo-invalidation needs query / change / query on ONE object
+        if fam == "tomo" and not self.cfg["big_fitter"]:
+            ns = [n for n in self.cfg["ns"] if n <= 3] or [self.rng.choice([2, 3])]
+            self.cfg["ns"] = ns
+            for n in ns:
+                self.cfg["conns"].setdefault(n, [self.rng.choice(VALID[n])])
+                self.cfg["groups"].setdefault(n, [Lt.random_group(self.rng, n)])
+        for pre_op in PREREQ.get(opname, []):
+            self.queue.append(self._reach(pre_op))
+        for _ in range(self.rng.randint(2, 6)):
+            self.queue.append(lambda ex, fam=fam: self.gen_call(ex, fam))
+
+        def target(ex):
+            steps = self._reach(opname)(ex)
+            hit = [st for st in steps if st["kind"] == "call" and st["op"] == opname]
+            if hit:
+                self.script_note = "reached"
+                return steps + [self._after_call(hit[-1]), self._after_call(hit[-1])]
+            self.script_note = "unreachable"
+            return []
+        self.queue.append(target)
+
+    def _reach(self, opname, tries=4000):
+        """deferred: the family recipe, re-drawn until it yields a call of `opname` (rejection sampling)"""
+        fam = opname.split(".")[0]
+
+        def go(ex):
+            for _ in range(tries):
+                steps = self.gen_call(ex, fam)
+                if any(st["kind"] == "call" and st["op"] == opname for st in steps):
+                    return steps
+            return []
+        return go
+
+    def _script_k6(self, table, fault):
+        """One table, cold; one fault at a chosen point of the call that loads it; then ask again (same
+        call, then siblings on the same table) - for EVERY table, every run of the check."""
+        kind = "mub" if table.startswith("mub") else "stabilizer"
+        rest = table[len(kind):-4]
+        n, conn = int(rest[0]), rest[2:]
+        self.cfg.update({"ns": [n], "conns": {n: [conn]}, "p_invalid": 0.0, "length": 0})
+        if n not in self.cfg["groups"]:
+            self.cfg["groups"][n] = [Lt.random_group(self.rng, n) for _ in range(2)]
+        self._force = (n, conn)
+        self._force_sticky = True
+        fam = self.rng.choice(["mub", "mub", "lookup", "tomo"] if kind == "mub" else ["prep", "prep", "lookup", "tomo"])
+        if fault["kind"] == "read":
+            arm = {"kind": "arm_read", "match": "next", "exc": fault["exc"]}
+        else:
+            arm = {"kind": "arm_intr", "scope": fault["scope"], "ordinal": None, "frac": fault["frac"], "exc": fault["exc"]}
+
+        def faulted(ex):
+            for _ in range(60):
+                steps = self.gen_fault(ex, fault["kind"], fam=fam, arm=arm)
+                calls = [s for s in steps if s["kind"] == "call"]
+                if calls and _touches(calls[-1]["op"], kind):
+                    if len(calls) < 2 or calls[-1]["op"] != calls[-2]["op"]:
+                        again = dict(calls[-1])
+                        again["id"] = self._id()
+                        steps.append(again)
+                    key = f"{kind}{n}-{conn}"
+                    sib = []
+                    for _ in range(2):
+                        sib += self.gen_sibling(ex, key)
+                    return steps + sib
+            return []
+        self.queue.append(faulted)
 
     # ------------------------------------------------------------------ main loop
     def next(self, ex):
+        if self.batch in SCRIPTED:
+            while self.queue and callable(self.queue[0]):
+                f = self.queue.pop(0)
+                self.queue[0:0] = f(ex)
+            if not self.queue:
+                return None
+            self.emitted += 1
+            return self.queue.pop(0)
+        return self._next_random(ex)
+
+    def _next_random(self, ex):
         while self.queue and callable(self.queue[0]):
             f = self.queue.pop(0)
             self.queue[0:0] = f(ex)
